@@ -21,6 +21,19 @@ NA = {
 PENDING = "static rule designed in DESIGN section 3; check not yet registered (under construction)"
 
 CHECKS = {
+ "C05": {
+  "text": "Decides six structural clauses on every path of the current sources: every std hash-container iteration "
+          "(51 today, found by type) is consumed order-insensitively, sanitised by a sort, unreachable from the compile "
+          "entry points, or listed with a reviewed reason; the same lattice for B-trees keyed by tree digests (history "
+          "channel through the fresh-name counter; found F1, fixed); inventory of interior-mutable globals; who-may-touch "
+          "the counter and the int-mode thread-local; RAII typestate of the int-mode guard; no ambient inputs reachable "
+          "from compile entry points. A finite set of runs cannot observe these channels (seeds agree, counters start at 0).",
+  "note": "Trusts rustc MIR/Freeze, the order-taint classifier (self-tested both ways) and tables/hash_order.json (8 reviewed "
+          "lines incl. 2 baseline-unproven for the de-inlining hill climb). Does not decide that emitted code contains no "
+          "generated names, nor ordering by generated *names* (only by digests).",
+  "technique": "MIR order-taint analysis (type-driven sources, loop/closure effect classification) + typestate + who-may-call + reviewed table",
+  "design": "3.1",
+ },
  "C18": {
   "text": "Pairing rule read => record decided on every path of the preprocessor's MIR (each read_new_file call is "
           "self-recording or dominated in every caller by a recorder on the same include description; recorder skip "
